@@ -81,14 +81,14 @@ impl TablePrinter {
 
 pub struct FollowFileIterator {
     reader: BufReader<File>,
-    line: String
+    line: Vec<u8>
 }
 
 impl FollowFileIterator {
     pub fn new(reader: BufReader<File>) -> FollowFileIterator {
         FollowFileIterator {
             reader,
-            line: String::new()
+            line: Vec::new()
         }
     }
 }
@@ -98,23 +98,27 @@ impl Iterator for FollowFileIterator {
 
     fn next(&mut self) -> Option<Self::Item> {
         loop {
-            if let Err(_) = self.reader.read_line(&mut self.line) {
+            // Collect raw bytes: the writer can be in the middle of a line, or of a multi-byte character,
+            // when we reach the current end of the file. The line is decoded once it is complete.
+            if let Err(_) = self.reader.read_until(b'\n', &mut self.line) {
                 return None;
             }
 
-            // If we get an EOF in the middle of a line, read_line will return.
+            // If we get an EOF in the middle of a line, read_until will return.
             // We will then try again and use content of current read line
-            if !self.line.ends_with('\n') {
+            if self.line.last() != Some(&b'\n') {
                 #[cfg(feature="verif_hooks")]
                 if let crate::verif_hooks::Action::Stop = crate::verif_hooks::point(crate::verif_hooks::Point::FollowRetry) { return None; }
                 continue;
             }
 
-            if self.line.ends_with('\n') {
-                self.line.pop();
-            }
+            self.line.pop();
 
-            return Some(std::mem::take(&mut self.line));
+            let line = std::mem::take(&mut self.line);
+            return Some(
+                String::from_utf8(line)
+                    .unwrap_or_else(|err| String::from_utf8_lossy(err.as_bytes()).into_owned())
+            );
         }
     }
 }
